@@ -2886,13 +2886,18 @@ impl RawTableInner {
         self.prepare_rehash_in_place();
 
         let mut guard = guard(self, move |self_| {
-            if let Some(drop) = drop {
-                for i in 0..self_.buckets() {
-                    if *self_.ctrl(i) == Tag::DELETED {
-                        self_.set_ctrl(i, Tag::EMPTY);
+            // Elements that were not rehashed yet (still marked DELETED) are
+            // removed from the table whether or not they need dropping:
+            // otherwise `items` would keep counting slots that are no longer
+            // FULL, and iteration (which stops by item count) would run past
+            // the end of the control bytes.
+            for i in 0..self_.buckets() {
+                if *self_.ctrl(i) == Tag::DELETED {
+                    self_.set_ctrl(i, Tag::EMPTY);
+                    if let Some(drop) = drop {
                         drop(self_.bucket_ptr(i, size_of));
-                        self_.items -= 1;
                     }
+                    self_.items -= 1;
                 }
             }
             self_.growth_left = bucket_mask_to_capacity(self_.bucket_mask) - self_.items;
